@@ -38,6 +38,7 @@ import (
 	"fmt"
 	"hash/crc32"
 	"strconv"
+	"strings"
 	"time"
 
 	"github.com/XiaoMi/Gaea/core/errors"
@@ -202,6 +203,56 @@ func (s *NumRangeShard) EqualStart(key interface{}, index int) bool {
 	return s.Shards[index].Start == v
 }
 
+// Calendar periods of the date shards.
+const (
+	datePeriodYear = iota
+	datePeriodMonth
+	datePeriodDay
+)
+
+// isDatePeriodStart reports whether key is exactly the first instant of the calendar
+// period it belongs to (YYYY-01-01 00:00:00, YYYY-MM-01 00:00:00 or YYYY-MM-DD 00:00:00).
+// Only then may a "<" / NOT BETWEEN lower bound on key skip the key's own period.
+// Anything it cannot decide is answered with false, which only makes the route wider.
+func isDatePeriodStart(key interface{}, period int) bool {
+	var tm time.Time
+	switch val := key.(type) {
+	case int:
+		tm = time.Unix(int64(val), 0)
+	case uint64:
+		tm = time.Unix(int64(val), 0)
+	case int64:
+		tm = time.Unix(val, 0)
+	case string:
+		// YYYY-MM-DD or YYYY-MM-DD HH:MM:SS[.ffffff]
+		if len(val) < len("2006-01-02") {
+			return false
+		}
+		if strings.Trim(val[10:], " 0:.") != "" {
+			return false // a time of day other than midnight
+		}
+		if period <= datePeriodMonth && val[8:10] != "01" {
+			return false
+		}
+		if period == datePeriodYear && val[5:7] != "01" {
+			return false
+		}
+		return true
+	default:
+		return false
+	}
+	if tm.Hour() != 0 || tm.Minute() != 0 || tm.Second() != 0 {
+		return false
+	}
+	if period <= datePeriodMonth && tm.Day() != 1 {
+		return false
+	}
+	if period == datePeriodYear && tm.Month() != time.January {
+		return false
+	}
+	return true
+}
+
 type DateYearShard struct {
 }
 
@@ -240,7 +291,7 @@ func (s *DateYearShard) EqualStart(key interface{}, index int) bool {
 		return false
 	}
 
-	return numYear == index
+	return numYear == index && isDatePeriodStart(key, datePeriodYear)
 }
 
 type DateMonthShard struct {
@@ -301,7 +352,7 @@ func (s *DateMonthShard) EqualStart(key interface{}, index int) bool {
 		return false
 	}
 
-	return numYear == index
+	return numYear == index && isDatePeriodStart(key, datePeriodMonth)
 }
 
 type DateDayShard struct {
@@ -362,7 +413,7 @@ func (s *DateDayShard) EqualStart(key interface{}, index int) bool {
 		return false
 	}
 
-	return numYear == index
+	return numYear == index && isDatePeriodStart(key, datePeriodDay)
 }
 
 type DefaultShard struct {
